@@ -303,6 +303,10 @@ SNIPPETS = {
                   '<i i18n:name="n">b</i></p>',
     "comment_hyphens": "<!-- a -- b -->",
     "end_without_start": "</nostart>",
+    # an end tag without a name
+    "end_tag_blank": "<i>a</ i>",
+    "end_tag_nameless": "<i>a</></i>",
+    "end_tag_in_text": "<i>1 </ 2</i>",
     "reserved_econtext": '<i tal:define="econtext 1">a</i>',
     "reserved_dunder": '<i tal:define="ok 1; __x 2">a</i>',
     "reserved_repeat": '<i tal:repeat="rcontext (1, 2)">a</i>',
